@@ -1594,11 +1594,12 @@ impl UndoOperation for RemoveFont {
 pub struct ChangeFontSlot {
     from: usize,
     to: usize,
+    replaced: Option<BitFont>,
 }
 
 impl ChangeFontSlot {
     pub fn new(from: usize, to: usize) -> Self {
-        Self { from, to }
+        Self { from, to, replaced: None }
     }
 }
 
@@ -1611,6 +1612,9 @@ impl UndoOperation for ChangeFontSlot {
         let font = edit_state.buffer.remove_font(self.to);
         if let Some(font) = font {
             edit_state.buffer.set_font(self.from, font);
+            if let Some(replaced) = self.replaced.take() {
+                edit_state.buffer.set_font(self.to, replaced);
+            }
             Ok(())
         } else {
             Err(anyhow::anyhow!("empty font slot."))
@@ -1620,6 +1624,7 @@ impl UndoOperation for ChangeFontSlot {
     fn redo(&mut self, edit_state: &mut EditState) -> EngineResult<()> {
         let font = edit_state.buffer.remove_font(self.from);
         if let Some(font) = font {
+            self.replaced = edit_state.buffer.remove_font(self.to);
             edit_state.buffer.set_font(self.to, font);
             Ok(())
         } else {
